@@ -84,6 +84,8 @@ type Candidate struct {
 	Replay    string // "confirmed","not-reproduced","assume-failed","error","skipped"
 	ReplayOut string
 	Conc      *ConcCex
+	EngineConfirmed bool
+	EngineOut       string
 }
 
 type ConcCex struct {
@@ -185,18 +187,30 @@ func (s *Session) AssertPC(t *Term) {
 // over-approximation of IEEE arithmetic, so `unsat` at any stage is final; `sat` only counts at the
 // last stage.  maxLevel limits the refinement (feasibility checks use the cheap stage only).
 func (s *Session) query(extra string, to time.Duration) string {
-	return s.queryLevels(extra, to, 3)
+	return s.queryLevels(extra, to, 3, nil)
 }
 
-func (s *Session) queryLevels(extra string, to time.Duration, maxLevel int) string {
+// onSat is called when a stage answers sat (final = last stage); returning true accepts the
+// model (it was confirmed by concrete re-execution), which ends the refinement early.
+func (s *Session) queryLevels(extra string, to time.Duration, maxLevel int, onSat func(final bool) bool) string {
 	s.solver.Send("(push 1)\n" + extra)
 	t0 := time.Now()
 	defer func() { s.res.SolverTime += time.Since(t0) }()
 	if s.r.mode != ModeReal {
 		s.res.Queries++
-		return s.solver.CheckSat(to)
+		a := s.solver.CheckSat(to)
+		if a == "sat" && onSat != nil {
+			onSat(true)
+		}
+		return a
 	}
 	ans := "unknown"
+	lastLvl := 1
+	for lvl := 1; lvl <= maxLevel; lvl++ {
+		if s.r.AxiomText(lvl-1, lvl) != "" {
+			lastLvl = lvl
+		}
+	}
 	prev := 0
 	for lvl := 1; lvl <= maxLevel; lvl++ {
 		ax := s.r.AxiomText(prev, lvl)
@@ -218,6 +232,11 @@ func (s *Session) queryLevels(extra string, to time.Duration, maxLevel int) stri
 		ans = s.solver.CheckSat(stageTO)
 		if ans == "unsat" {
 			return ans
+		}
+		if ans == "sat" && onSat != nil {
+			if onSat(lvl >= lastLvl) {
+				return ans
+			}
 		}
 		if s.solver.restarts != restarts {
 			// hard timeout: the process was replaced; rebuild the context for the next stage
@@ -261,7 +280,7 @@ func (s *Session) Feasible(t *Term) bool {
 	}
 	n := s.ref(t)
 	tq := time.Now()
-	ans := s.queryLevels("(assert "+n+")\n", s.feasTO, 1)
+	ans := s.queryLevels("(assert "+n+")\n", s.feasTO, 1, nil)
 	if d := time.Since(tq); d > 500*time.Millisecond && verboseLog {
 		logf("    slow feasibility %.1fs -> %s at %s\n", d.Seconds(), ans, s.ex.curPos())
 	}
@@ -353,12 +372,35 @@ func (s *Session) Obligation(id, kind string, cond *Term, pos, msg string) bool 
 		var ans string
 		var msolver *Solver
 		var done func()
+		var staged *Candidate
 		if s.res.H.Portfolio {
 			ans, msolver, done = s.portfolioSolve(extra)
 		} else {
-			ans = s.query(extra, s.oblTO)
+			maxLvl := 3
+			_, already := s.res.H.confirmed.Load(id)
+			if already {
+				maxLvl = 1 // a confirmed witness for this assertion exists: do not spend time on more
+			}
+			ans = s.queryLevels(extra, s.oblTO, maxLvl, func(final bool) bool {
+				c := s.extractCandidate(s.solver, id, kind, pos, msg)
+				ok := s.concreteConfirms(c)
+				if ok || final {
+					staged = c
+				}
+				return ok
+			})
 			if ans == "unknown" && s.solverRestarted() {
 				s.res.Inconclusive = append(s.res.Inconclusive, fmt.Sprintf("%s: obligation %s at %s: solver timeout (hard)", s.res.H.Name, id, pos))
+				break
+			}
+			if ans != "sat" && staged != nil && staged.EngineConfirmed {
+				ans = "sat"
+			}
+			if staged != nil && staged.EngineConfirmed {
+				s.res.H.confirmed.Store(id, true)
+			}
+			if already && ans != "unsat" && (staged == nil || !staged.EngineConfirmed) {
+				s.endQuery()
 				break
 			}
 			msolver = s.solver
@@ -377,7 +419,10 @@ func (s *Session) Obligation(id, kind string, cond *Term, pos, msg string) bool 
 			break
 		}
 		violated = true
-		cand := s.extractCandidate(msolver, id, kind, pos, msg)
+		cand := staged
+		if cand == nil {
+			cand = s.extractCandidate(msolver, id, kind, pos, msg)
+		}
 		done()
 		if st.Sample == "" {
 			st.Sample = fmt.Sprint(cand.ModelSummary())
@@ -569,4 +614,16 @@ func sortedKeys(m map[string]bool) []string {
 	}
 	sort.Strings(ks)
 	return ks
+}
+
+// concreteConfirms re-executes the harness with the model's values (exact IEEE / wrap-around
+// semantics by constant folding) and reports whether the same obligation is violated.
+func (s *Session) concreteConfirms(c *Candidate) bool {
+	if s.ex.ld == nil {
+		return false
+	}
+	ok, out := concreteRun(s.ex.ld, s.res.H, c)
+	c.EngineConfirmed = ok
+	c.EngineOut = out
+	return ok
 }
